@@ -127,6 +127,9 @@ class database(fs_template.FsBased):
             for l in subdirs:
                 if l.endswith(".cpickle"):
                     continue
+                if l.startswith(".update."):
+                    # temp file of an in-flight (or interrupted) _setitem, not an entry
+                    continue
                 p = pjoin(d, l)
                 try:
                     st = os.lstat(p)
